@@ -26,7 +26,8 @@ RULE = ('case = (configuration in ticks; event list with Cancel events) run agai
         'and a drain that answers everything; retention 0 and > 0.  Random layer: up to 8 calls, several cancels per batch, '
         'any result order.  non-trivial = some waiting caller was really cancelled and another caller was answered '
         '(Case_C09.nontrivial, inside Coq); distinct = distinct (case, trace) pairs'
-        ' The random layer also contains Chain events (a task calling again in the continuation of its answer; cancelling it stops the chain).')
+        ' The random layer also contains Chain events (a task calling again in the continuation of its answer; cancelling it stops the chain).'
+        " 'burstc' events (corpus, exhaustive on short programs, random): a burst larger than max_batch_size * max_concurrent_batches in which one member — typically a late one whose key another member shares — is cancelled in the loop iteration right after the requests were issued, before the batcher's own tasks run; for the model this is Burst followed by Cancel (batcher_drv.expand splits the event and its observations).")
 EXHAUSTIVE_NOTE = ('all event lists of length <= D (D=5 quick, 6 thorough) with <= 3 calls over the alphabet in the rule, '
                    'for 4 configurations, each followed by fresh calls and a drain')
 ASSUMPTIONS = D.ASSUMPTIONS + ['a caller is cancelled at a quiescent point, i.e. after its task has reached '
@@ -47,7 +48,7 @@ explain_exprs = D.explain_exprs
 shrink_candidates = D.shrink_candidates
 distribution = D.distribution
 
-W = dict(call=30, chain=5, burst=8, adv=16, cancel=20, fin=6, **{'yield': 18}, **{'raise': 4}, junk=2)
+W = dict(call=30, chain=5, burst=8, burstc=7, adv=16, cancel=20, fin=6, **{'yield': 18}, **{'raise': 4}, junk=2)
 
 
 def _fresh_then_finish(cfg, evs):
@@ -76,12 +77,24 @@ def corpus():
                                                    ['yield', 1, 1, 'v', 3], ['cancel', 1], ['cancel', 0]]))
     out.append(_fresh_then_finish(dict(c, deco=True), [['call', 0, None], ['call', 1, None], ['cancel', 0], ['adv', 10],
                                                        ['fin', 0]]))
+    # a burst larger than max_batch_size * max_concurrent_batches; a late member (the creator of key 3, which another
+    # member shares) is cancelled in the very iteration in which it issued its request — before the collector ran
+    out.append(_fresh_then_finish(dict(c, mbs=2), [['burstc', [[1, None], [2, None], [3, None], [3, None]], 2],
+                                                   ['adv', 11], ['fin', 0], ['call', 3, None]]))
+    out.append(_fresh_then_finish(dict(c, mbs=1), [['burstc', [[1, None], [2, None], [2, None]], 1], ['fin', 0],
+                                                   ['call', 2, None]]))
+    out.append(_fresh_then_finish(dict(c, mbs=2, conc=2, rt=15),
+                                  [['call', 9, None], ['burstc', [[i, None] for i in range(6)] + [[5, None]], 5],
+                                   ['adv', 11], ['fin', 0], ['fin', 1], ['call', 5, None]]))
     return out
 
 
-def _alphabet(bt):
+def _alphabet(bt, big=False):
     def alpha(m, evs):
         out = [['call', 0, None], ['call', 1, None], ['call', 5, 0]]
+        if big and not any(e[0] == 'burstc' for e in evs):
+            n = m.cfg['mbs'] * m.cfg['conc']
+            out.append(['burstc', [[10 + i, None] for i in range(n)] + [[0, None], [0, None]], n])
         if not evs or evs[-1][0] != 'adv':
             out.append(['adv', bt + 1])
         for c in m.waiting_callers():
@@ -105,10 +118,13 @@ def gen_exhaustive(tier, seed):
     for mbs, conc, rt in [(2, 1, 0), (2, 1, 9), (1, 1, 0), (3, 2, 9)]:
         cfg = dict(mbs=mbs, conc=conc, bt=bt, rt=rt, deco=False)
         progs = G.enum_programs(cfg, _alphabet(bt), depth, 3, finish='blind')
+        # the over-capacity burst with an immediate cancellation, at every position of short programs
+        progs += [p for p in G.enum_programs(cfg, _alphabet(bt, True), depth - 2, 1 + mbs * conc + 2, finish='blind')
+                  if any(e[0] == 'burstc' for e in p['evs'])]
         for p in progs:
             n = len(p['evs']) - len(D.drain([], bt)) - D.n_calls(p['evs'])
             body = p['evs'][:n]
-            if any(e[0] == 'cancel' for e in body):
+            if any(e[0] in ('cancel', 'burstc') for e in body):
                 out.append(_fresh_then_finish(cfg, body))
     return out
 
